@@ -1,17 +1,73 @@
 (* C03 - Every valid MQTT v5.0 frame is accepted and decoded to the values it carries. *)
-From MQ Require Import Model.Stream Proofs.BytesP Proofs.VbP Proofs.WireP Proofs.StreamP Proofs.SpecP
-     Proofs.SpecWireP Spec.Mqtt5 Spec.Glue.
+From MQ Require Import Model.Stream Model.Api Proofs.BytesP Proofs.VbP Proofs.WireP Proofs.StreamP Proofs.SpecP
+     Proofs.SpecWireP Proofs.AcceptP Proofs.RoundP Proofs.PropsP Spec.Mqtt5 Spec.Glue.
+From Coq Require Import Lia.
 
 (* The full statement (Findings/C03_disconnect.v, C03_full) is refuted by
    the known finding D13: DISCONNECT carrying property 0x11, 0x1c or
-   0x1f. Proved here: every legal short form, for all field values; the
-   field-level facts that make long forms readable (strings up to 65 535
-   bytes, minimal variable byte integers of 1-4 bytes as property or
-   remaining length, explicit zero values); the rest of the valid-frame
-   language is decided on the implementation by the oracle, which feeds
-   ReadPacket the output of the specification's encoder over all 15
-   types, property subsets, permutations, explicit zeros and boundary
-   lengths, and compares every accessor. *)
+   0x1f. C03_valid_frames below is the full statement with exactly that
+   case taken out: for every abstract frame of the specification
+   (Spec/Mqtt5.v: any of the fifteen types, the properties table 2-4 allows
+   for the packet in any order, once-only identifiers at most once, values
+   within their type, every legal short form, explicit zero values, empty
+   strings, strings up to 65 535 bytes, property lengths of any size below
+   the limit) - [frame_ok], in the specification's own vocabulary - the
+   bytes the specification's encoder writes are read by ReadPacket, under
+   any delivery and followed by anything, without error, as a packet of the
+   matching type whose accessors are exactly the specification's reading of
+   the frame ([frame_obs], an absent property counting as zero). The only
+   clause of [frame_ok] that is the library's and not the specification's
+   is the last one for DISCONNECT (user properties only: D13).
+   No bound on the number of properties, filters or reason codes. *)
+Theorem C03_valid_frames : forall f, frame_ok f -> len (e_body (af_body f)) < 268435456 ->
+  exists k p,
+    kind_nibble k = af_type f /\ snapshot k p = frame_obs f
+    /\ forall s rest, sbytes s = spec_encode f ++ rest -> avail (len (spec_encode f)) s = true ->
+        exists tr, read_packet s =
+          RP {| r_pkt := Some (k, p); r_err := None; r_rest := sdrop (len (spec_encode f)) s;
+                r_trace := tr; r_got := spec_encode f |}.
+Proof.
+  intros f Hok Hl. destruct (accepts_all f Hok) as [k [p [Hd [Hk Hs]]]].
+  exists k, p. split; [exact Hk|]. split; [exact Hs|].
+  intros s rest Hsb Hav. unfold spec_encode in *. cbv zeta in *.
+  rewrite (e_var_enc_vb _ Hl) in *. destruct (enc_vb_wf _ Hl) as [W V].
+  apply (read_packet_frame _ (enc_vb (len (e_body (af_body f)))) (e_body (af_body f)) rest s); try assumption.
+  - symmetry. exact V.
+  - rewrite Hsb. cbn [app]. rewrite <- app_assoc. reflexivity.
+Qed.
+Print Assumptions C03_valid_frames.
+
+(* the hypothesis is inhabited, and such frames are what the specification's
+   strict decoder accepts: a CONNACK with properties out of table order and an
+   explicit zero, a PUBLISH with two subscription identifiers, an empty AUTH *)
+Ltac sprop := unfold sprop_ok; cbn [ap_id ap_val pval_type pval_ok pnumval];
+  repeat split; try reflexivity; try discriminate; try (intros; discriminate); try (apply N.ltb_lt; reflexivity).
+Ltac nodup := vm_compute; repeat (apply NoDup_cons; [intros H; cbn in H; intuition discriminate|]); apply NoDup_nil.
+
+Example C03_frames_inhabited :
+  let f1 := {| af_type := 2; af_flags := 0;
+               af_body := BConnack 1 0 [ {| ap_id := 38; ap_val := VPair [x61] [x62] |};
+                                         {| ap_id := 36; ap_val := VByte 0 |};
+                                         {| ap_id := 17; ap_val := VFour 7 |} ] |} in
+  let f2 := {| af_type := 3; af_flags := 2;
+               af_body := BPublish [x74] (Some 9) [ {| ap_id := 11; ap_val := VVar 5 |};
+                                                    {| ap_id := 11; ap_val := VVar 300 |} ] [x70] |} in
+  let f3 := {| af_type := 15; af_flags := 0; af_body := BDisc 0 0 [] |} in
+  (frame_ok f1 /\ spec_decode (spec_encode f1) = Some f1)
+  /\ (frame_ok f2 /\ spec_decode (spec_encode f2) = Some f2)
+  /\ (frame_ok f3 /\ spec_decode (spec_encode f3) = Some f3).
+Proof.
+  cbv zeta. split; [|split]; (split; [|vm_compute; reflexivity]); unfold frame_ok; cbn [af_type af_flags af_body].
+  - split; [reflexivity|]. split; [reflexivity|]. split; [apply N.leb_le; reflexivity|].
+    split; [apply N.ltb_lt; reflexivity|]. split; [|apply N.ltb_lt; vm_compute; reflexivity].
+    split; [repeat (apply Forall_cons; [sprop|]); apply Forall_nil|nodup].
+  - split; [reflexivity|]. split; [apply N.ltb_lt; reflexivity|]. split; [vm_compute; discriminate|].
+    split; [apply N.ltb_lt; reflexivity|]. split; [split; [apply N.ltb_lt; reflexivity|vm_compute; discriminate]|].
+    split; [|apply N.ltb_lt; vm_compute; reflexivity].
+    split; [repeat (apply Forall_cons; [sprop|]); apply Forall_nil|nodup].
+  - split; [right; reflexivity|]. split; [reflexivity|]. split; [apply N.ltb_lt; reflexivity|].
+    split; reflexivity.
+Qed.
 
 (* PUBACK/PUBREC/PUBREL/PUBCOMP of remaining length 2, 3 and 4: accepted,
    same values as the specification's reading *)
